@@ -52,9 +52,21 @@ CHECKS = {
  "C14": dict(cat="proof", tech=TECH % "z3 (outcome analysis: every path ends in return or raise of a modelled exception class)",
       text="For 112-bit frames the body obligations of C02-C13 state the exact outcome of every exported decoder (value for the documented DF/TC/subtype set, RuntimeError otherwise); C14 adds every adsb/commb/surv/allcall/common function on well-formed short frames, oe_flag, and tell() (proved to return or raise RuntimeError for every frame, with abstract contracts for infer/callsign). The type-guard clause of the four raw position decoders is sampled natively (bounded). Known findings F17a-d (unguarded position decoders / oe_flag) and F18 (ValueError on short frames) are excluded by their regions.",
       ref="DESIGN.md section 5 C14"),
+ "C15": dict(cat="proof", tech=TECH % "GF(2)-affine normal forms, z3, interval B&B - on a mechanical Python translation of c_common.pyx regenerated on every run",
+      text="Every function of c_common.pyx is translated mechanically (vc/pyx2py.py: cdef/cpdef headers, typed locals, memoryviews, casts, C-API length macros; bytes as lists of character codes) and proved against the same functional contract as its py_common twin, modulo the documented sentinels; hence both modules agree on the common domain. crc / hex2bin / bin2int / hex2int are decided in the affine bit domain, cprNL by z3 + interval B&B. bds05.altitude is re-verified with pyModeS.common bound to the C module (known finding F13). The Cython compiler, C integer widths and the compiled extension are outside the proof (A4).",
+      ref="DESIGN.md section 5 C15", note=NOTE + " A4: the .pyx subset means what vc/pyx2py.py says; Cython / C tool-chain and the pre-built .so are not in the loop (Cython is not installed, the extension cannot be rebuilt from a modified .pyx)."),
+ "C16": dict(cat="other", tech="bounded native enumeration of stream segmentations against reference framers (labelled bounded) + deductive VCs (z3 / affine forms) for NetSource.handle_messages",
+      text="Chunk-independence of the raw, Beast and Skysense framers is a whole-history property: the real read_*_buffer methods are run natively on sampled multi-frame streams (0x1A anywhere) under every single and double cut and random multi-cuts and compared with whole-stream reference parsers (spec/framing_spec.py) - bounded, never counted as proved. The forwarding clause (every long DF17/18 and DF20/21 message reaches the pipe exactly once, in order, across two calls) is proved deductively for four messages of arbitrary content. Known finding F11 (Beast remainder / trailing 0x1A) is excluded by its region.",
+      ref="DESIGN.md section 5 C16"),
+ "C17": dict(cat="other", tech="contract-based deductive verification of Decode.process_raw for histories of up to three messages (z3, abstract callee contracts) + bounded trajectory simulation for the accuracy clause",
+      text="process_raw is symbolically executed from a fresh table on every pair of DF17 type codes (all other bits, letter case and timestamps symbolic) and on a DF17 message followed by a Comm-B reply of each inference class: never raises, keys are canonical, listed within 59 s / absent after 61 s, Comm-B attaches only to known addresses in any letter case. Callees are taken by contract (position decoders, infer, callsign abstractly). An induction step from an arbitrary table and the 0.001-degree accuracy clause are not discharged deductively; the latter is simulated (bounded).",
+      ref="DESIGN.md section 5 C17"),
  "C18": dict(cat="proof", tech=TECH % "GF(2)-affine normal forms (uplink_icao) and z3 (fields)",
       text="uplink_icao is proved to return A for every frame data || parity(data) xor top24(A x G) (all 2^24 addresses, all payloads, both lengths) by comparing affine normal forms generated from the real bit-serial loop; uf/bds/pr/ic/lockout are proved against Annex 10 field positions for every frame; uplink_fields() agrees with them wherever they are not None.",
       ref="DESIGN.md section 5 C18"),
+ "C19": dict(cat="other", tech="contract-based deductive verification (z3 over linear real arithmetic + affine bit domain) of _check_preamble and of one call of _process_buffer on a symbolic frame; bounded simulation of frame sequences in noise",
+      text="Per-frame recovery lemma: for every DF20/21, DF4/5/11 frame content (and every DF17 content with arbitrary parity), every per-pulse amplitude in [0.3, 1.4], every quiet-sample value below 0.2 x 0.3 and 10 dB below the pulses, at several start offsets, the real _process_buffer returns exactly that frame as upper-case hex - and returns a DF17 frame iff its checksum is zero (113 merged slicer steps, unbounded over contents and amplitudes). _check_preamble and _check_msg are proved against their definitions. Sequences of frames in noise through _calc_noise are only simulated (bounded); the '10 dB above the noise floor' clause is formalised as stated in DESIGN.md.",
+      ref="DESIGN.md section 5 C19"),
  "C20": dict(cat="proof", tech=TECH % "z3 over the reals with ground instances of the sqrt / pow / exp / cos axioms; interval branch-and-bound (ISA numerics)",
       text="The four conversion pairs are proved mutual inverses and every conversion strictly increasing in speed, as real identities over the executed bodies of extra/aero.py (pow, sqrt uninterpreted with instantiated axioms (b^e)^y = b^(ey), sqrt(x)^2 = x, monotonicity); p, rho, T positive and within 0.1 % of the two-layer ICAO atmosphere and continuous at 11 km by interval B&B over [-500 m, 20 km]; distance symmetric (cos even) and bearing in [0,360) by z3. Sea-level equalities, TAS>=EAS / CAS>=EAS, numpy-array arguments and agreement with haversine are only checked bounded.",
       ref="DESIGN.md section 5 C20", note=NOTE + " A2 floats as reals; A3 rounding model in the interval back end; the listed axiom instances."),
